@@ -53,6 +53,11 @@ def run(ctx):
     h3 = h3_jobs.h3_job(ctx, pairs=False)
     h3.pop("h3_assumptions")
     cov["http3_relay"] = {k: h3[k] for k in ("h3_vectors", "h3_relays", "h3_evaluations")}
+    # faults on an established HTTP/3 tunnel (client resets / closes, destination resets): MCPipeE2EF vectors over the real QUIC path
+    hf = h3_jobs.h3_fault_job(ctx)
+    cov["http3_faults"] = {k: hf[k] for k in ("h3_fault_vectors", "h3_fault_evaluations", "h3_fault_distinct_nontrivial")}
+    cov["traces_validated_against_impl"] += hf["h3_fault_evaluations"]
+    cov["evaluations"] += hf["h3_fault_evaluations"]
     # tunnels established through a SOCKS5 upstream: the connection to the destination is the one that
     # carried the SOCKS5 dialogue (Socks5.tla TunnelIsDestination); both directions are compared octet for octet
     import c15
@@ -78,6 +83,7 @@ def run(ctx):
         "bounded model: scripts of <= 3 chunks, windows <= 2, T = 2..3 ticks, one injected fault",
         "HTTP/3: established tunnels relay patterned payloads (up to 300 kB each way, client half-close first) through the real QUIC path; schedules there are whatever loopback UDP produces",
         "end-to-end part: over HTTP/1.1 only scenarios in which the side finishing second has nothing left to send are run for the client-first order (TLS carries no client half-close)",
+        "HTTP/3 faults: the MCPipeE2EF vectors with the failing side realised as RESET_STREAM (between DATA frames on a busy connection, inside a DATA frame, with STOP_SENDING), CONNECTION_CLOSE, or a TCP RST of the destination (after delivery / in the middle of a large download); real time, 5 s for the other side to end",
         "SOCKS5 upstream: the tunnel-level slice of MCSocks5 (destination x bound-address type of the reply, up to 5000 octets down / 3000 up, the server's reply and the destination's first octets in one write) through the real Socks5Forwarder, over HTTP/1.1 and HTTP/2",
         "trusted: TLC, the scripted endpoints of the harness, the verif::pipe door",
     ])
